@@ -262,6 +262,21 @@ pub fn cast_compare(from: &Ty, to: &Ty) -> Vec<X> {
     if to.signed() {
         lits.push(-1);
     }
+    // unit / scale conversions: literals on, next to and between the multiples of the conversion factor
+    let f: i128 = match (from, to) {
+        (Ty::Ts(a), Ty::Ts(b)) if b > a => 1000i128.pow((*b - *a) as u32),
+        (Ty::Date32, Ty::Date64) => 86_400_000,
+        (Ty::Date32, Ty::Ts(u)) => 86_400 * 1000i128.pow(*u as u32),
+        (Ty::Dec { s: s1, .. }, Ty::Dec { s: s2, .. }) if s2 > s1 => 10i128.pow((*s2 - *s1) as u32),
+        (Ty::Int { .. }, Ty::Dec { s, .. }) if *s > 0 => 10i128.pow(*s as u32),
+        _ => 1,
+    };
+    if f > 1 {
+        lits.extend([f, f + 1, f - 1, f * 3 / 2, -f, -f - 1, 2 * f, 1_500_000_000]);
+    }
+    if matches!(from, Ty::Dec { .. }) {
+        lits.extend([1, 2, 15, 16, -16]);
+    }
     lits.sort();
     lits.dedup();
     let lits: Vec<i128> = lits.into_iter().filter(|v| *v >= tlo && *v <= thi).collect();
@@ -280,6 +295,95 @@ pub fn cast_compare(from: &Ty, to: &Ty) -> Vec<X> {
             out.push(X::InList { e: Box::new(c.clone()), list: lits.iter().rev().take(2).map(|v| lit(to, *v)).chain([null(to)]).collect(), negated: neg });
         }
     }
+    out
+}
+
+/// IN-list algebra (inlist_simplifier, OR-of-equalities -> IN, intersections / unions), with NULL items
+pub fn inlist_patterns(ty: &Ty) -> Vec<X> {
+    let a = col("a", ty);
+    let b = col("b", ty);
+    let l = |v: i128| lit(ty, v);
+    let lists: Vec<Vec<X>> = vec![
+        vec![l(1), l(2)],
+        vec![l(2), l(3)],
+        vec![l(3), null(ty)],
+        vec![l(1), null(ty)],
+        vec![null(ty)],
+        vec![l(1)],
+        vec![l(1), l(2), l(3)],
+        vec![b.clone(), l(1)],
+        vec![a.clone(), l(2)],
+    ];
+    let mut ins = vec![];
+    for li in &lists {
+        for neg in [false, true] {
+            ins.push(X::InList { e: Box::new(a.clone()), list: li.clone(), negated: neg });
+        }
+    }
+    let mut out = ins.clone();
+    for x in &ins {
+        for y in &ins {
+            out.push(bin(BinOp::And, x.clone(), y.clone()));
+            out.push(bin(BinOp::Or, x.clone(), y.clone()));
+        }
+        for v in [1i128, 2, 3] {
+            for op in [BinOp::Eq, BinOp::NotEq] {
+                out.push(bin(BinOp::And, x.clone(), bin(op, a.clone(), l(v))));
+                out.push(bin(BinOp::Or, bin(op, a.clone(), l(v)), x.clone()));
+            }
+        }
+        out.push(not(x.clone()));
+    }
+    // OR / AND chains of (in)equalities that the simplifier turns into lists
+    let eq = |v: X| bin(BinOp::Eq, a.clone(), v);
+    let ne = |v: X| bin(BinOp::NotEq, a.clone(), v);
+    for third in [l(3), null(ty), b.clone(), l(1)] {
+        out.push(bin(BinOp::Or, bin(BinOp::Or, eq(l(1)), eq(l(2))), eq(third.clone())));
+        out.push(bin(BinOp::And, bin(BinOp::And, ne(l(1)), ne(l(2))), ne(third.clone())));
+        out.push(bin(BinOp::Or, eq(l(1)), bin(BinOp::Eq, third.clone(), a.clone())));
+    }
+    out
+}
+
+/// expressions over column `a` whose simplification depends on a guarantee [lo, hi] for `a`
+pub fn guarantee_exprs(ty: &Ty, lo: i128, hi: i128) -> Vec<X> {
+    let a = col("a", ty);
+    let b = col("b", ty);
+    let (tlo, thi) = ty.min_max();
+    let mut vs: Vec<i128> = vec![lo - 1, lo, lo + 1, hi - 1, hi, hi + 1, tlo, thi];
+    vs.retain(|v| *v >= tlo && *v <= thi);
+    vs.sort();
+    vs.dedup();
+    let mut out = vec![];
+    for v in &vs {
+        for op in CMPS.iter().chain([BinOp::IsDistinctFrom, BinOp::IsNotDistinctFrom].iter()) {
+            out.push(bin(*op, a.clone(), lit(ty, *v)));
+            out.push(bin(*op, lit(ty, *v), a.clone()));
+        }
+    }
+    for op in [BinOp::Eq, BinOp::IsDistinctFrom, BinOp::IsNotDistinctFrom, BinOp::Lt] {
+        out.push(bin(op, a.clone(), null(ty)));
+        out.push(bin(op, a.clone(), b.clone()));
+    }
+    for isop in [IsOp::Null, IsOp::NotNull] {
+        out.push(X::Is(isop, Box::new(a.clone())));
+        out.push(X::Is(isop, Box::new(bin(BinOp::Plus, a.clone(), lit(ty, 1)))));
+    }
+    for neg in [false, true] {
+        out.push(X::InList { e: Box::new(a.clone()), list: vec![lit(ty, lo), null(ty)], negated: neg });
+        out.push(X::InList { e: Box::new(a.clone()), list: vs.iter().take(3).map(|v| lit(ty, *v)).collect(), negated: neg });
+        out.push(X::InList { e: Box::new(a.clone()), list: vec![lit(ty, if hi < thi { hi + 1 } else { hi }), lit(ty, if lo > tlo { lo - 1 } else { lo })], negated: neg });
+        out.push(X::InList { e: Box::new(a.clone()), list: vec![lit(ty, hi), lit(ty, if hi < thi { hi + 1 } else { hi }), null(ty)], negated: neg });
+        // BETWEEN as the planner writes it
+        if neg {
+            out.push(bin(BinOp::Or, bin(BinOp::Lt, a.clone(), lit(ty, lo)), bin(BinOp::Gt, a.clone(), lit(ty, hi))));
+        } else {
+            out.push(bin(BinOp::And, bin(BinOp::GtEq, a.clone(), lit(ty, lo)), bin(BinOp::LtEq, a.clone(), lit(ty, hi))));
+        }
+    }
+    out.push(X::Case { operand: None, whens: vec![(bin(BinOp::Gt, a.clone(), lit(ty, lo)), lit(&Ty::Bool, 1))], els: None, ty: Ty::Bool });
+    out.push(bin(BinOp::And, bin(BinOp::Gt, a.clone(), lit(ty, hi)), col("p", &Ty::Bool)));
+    out.push(bin(BinOp::Or, bin(BinOp::LtEq, a.clone(), lit(ty, hi)), col("p", &Ty::Bool)));
     out
 }
 
